@@ -6,7 +6,9 @@ exhausted reader is the reader's error (`io.EOF` for `bytes.Reader` and for the
 -/
 import Uquic.Model.Wire.Varint
 
-namespace Uquic.Model.Wire.Varint
+namespace Uquic.Model.Wire.Varint.BR
+
+open Uquic.Model.Wire Uquic.Model.Wire.Varint
 
 /-- `r.ReadByte()`: the next byte and the reader afterwards; `none` = `io.EOF` -/
 def readByte : Bytes → Option (UInt8 × Bytes)
@@ -51,4 +53,4 @@ def readBR (r : Bytes) : Option Nat × Bytes :=
     (some (b8.toNat + b7.toNat * 2 ^ 8 + b6.toNat * 2 ^ 16 + b5.toNat * 2 ^ 24 + b4.toNat * 2 ^ 32
             + b3.toNat * 2 ^ 40 + b2.toNat * 2 ^ 48 + b1 * 2 ^ 56), r)
 
-end Uquic.Model.Wire.Varint
+end Uquic.Model.Wire.Varint.BR
